@@ -90,4 +90,26 @@ def r7aDoc : SchemaDoc :=
     [ defn .interface "I" 1 [fld "f" (ty "Int") [arg "a" (ty "String" true)]],
       defn .object "T" 2 [fld "f" (ty "Int") [arg "a" (ty "String")]] (interfaces := ["I"]) ])
 
+/-- `interface I { f(a: String!): Int }  type T implements I { f(a: String!): Int }  union U = T`
+    plus `interface J { g: U }  type V implements J { g: T }` (covariant through the union) -/
+def implOkDoc : SchemaDoc :=
+  doc (miniPrelude ++
+    [ defn .interface "I" 1 [fld "f" (ty "Int") [arg "a" (ty "String" true)]],
+      defn .object "T" 2 [fld "f" (ty "Int") [arg "a" (ty "String" true)]] (interfaces := ["I"]),
+      defn .union "U" 3 (types := ["T"]),
+      defn .interface "J" 4 [fld "g" (ty "U")],
+      defn .object "V" 5 [fld "g" (ty "T")] (interfaces := ["J"]) ])
+
+/-- `directive @tag(name: String!) on OBJECT | ARGUMENT_DEFINITION`
+    `type Query @tag(name: "q") { a(x: Int @tag(name: "x")): Int }` -/
+def tagUse (v : String) : Directive :=
+  { name := str "tag", args := [{ name := str "name", value := .mk .string (str v) .nil (pos 0), pos := pos 0 }], pos := pos 0 }
+def dirOkDoc : SchemaDoc :=
+  doc (miniPrelude ++
+    [ { defn .object "Query" 2
+          [ { fld "a" (ty "Int") [ { arg "x" (ty "Int") with dirs := [tagUse "x"] } ] with dirs := [] } ]
+        with dirs := [tagUse "q"] } ])
+    (dirs := [ { desc := [], name := str "tag", args := [arg "name" (ty "String" true)],
+                 locations := [str "OBJECT", str "ARGUMENT_DEFINITION"], repeatable := false, pos := pos 1 } ])
+
 end Gql.Examples
